@@ -1009,3 +1009,33 @@ Proof.
     right; intros id' [Y|Y]; [inversion Y; congruence|eapply X; eauto]. }
   destruct D as [D|D]; [exact D|]. exfalso. apply Hw. now apply watched_none_until_set.
 Qed.
+
+(* explicit form of "the most recent select" *)
+Lemma last_parts : forall batch to regs t rdy rest,
+  (forall e, In e batch -> is_select e = false) ->
+  last_select (batch ++ ESelect to regs t rdy :: rest) = Some (to, regs, t, rdy) /\
+  last_batch (batch ++ ESelect to regs t rdy :: rest) = batch /\
+  before_select (batch ++ ESelect to regs t rdy :: rest) = rest.
+Proof.
+  intros batch to regs t rdy rest H.
+  destruct (nosel_app batch (ESelect to regs t rdy :: rest)) as [A [B C]].
+  { intros e X. unfold p_nosel. now rewrite (H e X). }
+  rewrite A, B, C. cbn. now rewrite app_nil_r.
+Qed.
+
+Lemma ready_reg_explicit : forall fd id tr, ready_reg fd id tr ->
+  exists batch to regs t rdy rest, tr = batch ++ ESelect to regs t rdy :: rest /\
+    (forall e, In e batch -> is_select e = false) /\ In fd rdy /\ watched fd rest = Some id.
+Proof.
+  intros fd id tr H. unfold ready_reg in H. destruct (last_select tr) as [[[[to regs] t] rdy]|] eqn:L; [|destruct H].
+  exists (last_batch tr), to, regs, t, rdy, (before_select tr). split; [now apply split_at_select|].
+  split; [apply last_batch_nosel|exact H].
+Qed.
+
+Lemma batch_done_explicit : forall tr batch to regs t rdy rest, batch_done tr ->
+  tr = batch ++ ESelect to regs t rdy :: rest -> (forall e, In e batch -> is_select e = false) ->
+  forall fd, In fd rdy -> (exists id t', In (EWatchCall fd id t') batch) \/ In (ERmWatch fd true) batch.
+Proof.
+  intros tr batch to regs t rdy rest H E Hb. unfold batch_done in H. subst tr.
+  destruct (last_parts batch to regs t rdy rest Hb) as [A [B _]]. rewrite A, B in H. exact H.
+Qed.
